@@ -5,12 +5,15 @@ from props._read import Rd
 PROP = 'C01'
 PROPS_MODULES = ['LA.Props.C01']
 GEN = ['Limits']
-ASSUMPTIONS = ['malloc never fails', 'single data node in the window model']
+ASSUMPTIONS = ['malloc never fails',
+               'seekable sources: the invariant is claimed while the filter is in step with the client '
+               '(not between a failed seek and the next successful one)']
 TRUSTED = []
 MANIFEST = {
     'text': 'partial: Lean theorems for the layer every parser reads through (archive_read.c peek/consume window): '
             'representation invariant for every source/skip script and call sequence, returned windows lie inside '
-            'the copy buffer or the current client block, the read-ahead loop always progresses; choose_filters is '
+            'the copy buffer or the current client block, the read-ahead loop always progresses; '
+            '__archive_read_filter_seek never indexes outside dataset[] and restores the invariant; choose_filters is '
             'capped at the extracted MAX_NUMBER_FILTERS for any bidder behaviour. Tied to the C by the rda engine '
             '(ASan/UBSan) incl. fault scripts.',
     'note': 'Memory safety of the unmodelled format parsers and decompressors is exercised under sanitizers only.',
